@@ -799,6 +799,12 @@ run_zoom_case(vh::Rng& rng)
                                + 2 * std::abs(g.xmin + g.nx / 2) * 3 + 2 * std::abs(g.ymin + g.ny / 2) * 3);
   if (!twod && cover)
     nz = static_cast<int>(std::ceil(g.nz * zz + 2 * std::fabs(offz) / g.vz * zz)) + 3;
+  if (static_cast<long>(nz) * ny * nx > 1500)
+    { // keep the lines short
+      nz = std::min(nz, 6);
+      ny = std::min(ny, twod ? 15 : 14);
+      nx = twod ? ny : std::min(nx, 14);
+    }
   if (rng.range(0, 11) == 0)
     { // the identity request
       zz = zy = zx = 1.F;
@@ -1140,7 +1146,7 @@ main(int argc, char** argv)
           run_overlap_1d(rng);
           run_overlap_iter(rng);
         }
-      const int nzoom = thorough ? 2500 : 160;
+      const int nzoom = thorough ? 1500 : 70;
       for (int k = 0; k < nzoom; ++k)
         run_zoom_case(rng);
     }
